@@ -21,6 +21,25 @@ func (fr *Frame) assignedInLoop(li *loopInfo) (map[string]bool, bool) {
 		blocks = append(blocks, b)
 	}
 	sort.Slice(blocks, func(i, j int) bool { return blocks[i].Index < blocks[j].Index })
+	if ex.topContract != nil {
+		// ghost assignments attached to call sites ("at/after callee ghost m() := e") may run in the loop body: at a
+		// matching call, or anywhere inside a /repo callee that may be inlined
+		for _, s := range ex.topContract.Sites {
+			if s.Ghost == nil || out["F_"+s.Ghost.Model] {
+				continue
+			}
+			if an, _ := ex.modelArray(s.Ghost.Model); an == "" {
+				continue
+			}
+			pat := s.Callee
+			if j := strings.LastIndex(pat, ":"); j >= 0 {
+				pat = pat[j+1:]
+			}
+			if fr.siteReachable(blocks, pat, 0, map[*ssa.Function]bool{}) {
+				out["F_"+s.Ghost.Model] = true
+			}
+		}
+	}
 	for _, b := range blocks {
 		for _, in := range b.Instrs {
 			switch x := in.(type) {
@@ -70,6 +89,55 @@ func (fr *Frame) assignedInLoop(li *loopInfo) (map[string]bool, bool) {
 		}
 	}
 	return out, all
+}
+
+// siteReachable: some call in the blocks matches the site pattern, directly or inside a /repo function that may be
+// inlined there (function values count as possibly matching).
+func (fr *Frame) siteReachable(blocks []*ssa.BasicBlock, pat string, depth int, seen map[*ssa.Function]bool) bool {
+	for _, b := range blocks {
+		for _, in := range b.Instrs {
+			cc := callCommonOf(in)
+			if cc == nil {
+				continue
+			}
+			if _, isB := cc.Value.(*ssa.Builtin); isB {
+				continue
+			}
+			if cc.IsInvoke() {
+				if siteMatches(fr.calleeDisplayQuick(cc), pat) {
+					return true
+				}
+				continue
+			}
+			fn := cc.StaticCallee()
+			if fn == nil {
+				return true // function value: may be a closure that is inlined
+			}
+			if siteMatches(fr.calleeDisplayQuick(cc), pat) {
+				return true
+			}
+			if len(fn.Blocks) > 0 && fn.Pkg != nil && inRepo(fn.Pkg.Pkg.Path()) && !seen[fn] {
+				if depth >= 4 {
+					return true
+				}
+				seen[fn] = true
+				if fr.siteReachable(fn.Blocks, pat, depth+1, seen) {
+					return true
+				}
+			}
+			for _, a := range cc.Args {
+				if mc, ok := a.(*ssa.MakeClosure); ok {
+					if cf, ok := mc.Fn.(*ssa.Function); ok && !seen[cf] {
+						seen[cf] = true
+						if fr.siteReachable(cf.Blocks, pat, depth+1, seen) {
+							return true
+						}
+					}
+				}
+			}
+		}
+	}
+	return false
 }
 
 // enterLoop: check invariants on entry, havoc loop-modified state, assume invariants.
@@ -397,7 +465,7 @@ func (fr *Frame) runDefers() {
 func (fr *Frame) goStmt(x *ssa.Go) {
 	ex := fr.ex
 	// site hook: contract may attach "at go#n assert E" clauses; effect of the goroutine itself is not modelled here
-	fr.siteClauses(x, &x.Call, "go", nil, nil)
+	fr.siteClauses(x, &x.Call, "go", nil, nil, nil, false)
 	// the spawned function's preconditions must hold at the go statement (they must be stable under interference)
 	if fn := x.Call.StaticCallee(); fn != nil {
 		ct := ex.S.Contracts[canonNameAny(fn)]
